@@ -451,6 +451,15 @@ def run_check(pid, tier="quick", seed=0, workers=None, replay=None, only=None):
     if floor is not None and not cap_hit and only is None and nontrivial < floor:
         print(f"VACUOUS property={pid} tier={tier}: only {nontrivial} non-trivial states (floor {floor}, measured on the unchanged tree): the exploration does not decide the property")
         exit_code = max(exit_code, 3)
+    try:
+        with open(os.path.join(VERIF, "nontrivial_floor.json")) as f:
+            cfloors = json.load(f).get(pid, {}).get(tier + ":counters", {})
+    except FileNotFoundError:
+        cfloors = {}
+    for k, fl in sorted(cfloors.items()):
+        if not cap_hit and only is None and info.get(k, 0) < fl:
+            print(f"VACUOUS property={pid} tier={tier}: counter {k} = {info.get(k, 0)} (floor {fl}, measured on the unchanged tree): the exploration does not decide the property")
+            exit_code = max(exit_code, 3)
 
     wall = time.time() - t0
     # evidence ---------------------------------------------------------------
